@@ -90,12 +90,15 @@ fn code_site_ops(n: usize, s: &Site) -> Vec<Operator<'static>> {
     match s.sp {
         Sp::F => { if s.flavour % 5 == 4 { v.push(Operator::ReturnCall { function_index: id }); } else { v.push(Operator::Call { function_index: id }); } }
         Sp::G => { v.push(Operator::GlobalGet { global_index: id }); v.push(Operator::Drop); }
-        Sp::M => match (if s.flavour >= 100 { 100 } else { s.flavour % 8 }) {
+        Sp::M => match (if s.flavour >= 100 { 100 } else { s.flavour % 11 }) {
             0 => { v.push(Operator::I32Const { value: 0 }); v.push(Operator::I32Load { memarg: ma(2) }); v.push(Operator::Drop); }
             1 => { v.push(Operator::MemorySize { mem: id }); v.push(Operator::Drop); }
             2 => { v.push(Operator::I32Const { value: 0 }); v.push(Operator::I64Const { value: 0 }); v.push(Operator::I64Store { memarg: ma(3) }); }
             3 => { v.push(Operator::I32Const { value: 0 }); v.push(Operator::I32Const { value: 0 }); v.push(Operator::I32Const { value: 0 }); v.push(Operator::MemoryFill { mem: id }); }
             4 => { v.push(Operator::I32Const { value: 0 }); v.push(Operator::I32Const { value: 0 }); v.push(Operator::I32Const { value: 0 }); v.push(Operator::MemoryCopy { dst_mem: id, src_mem: s.flavour2 as u32 }); }
+            8 => { v.push(Operator::I32Const { value: 0 }); v.push(Operator::I64AtomicLoad { memarg: ma(3) }); v.push(Operator::Drop); }
+            9 => { v.push(Operator::I32Const { value: 0 }); v.push(Operator::I32Const { value: 1 }); v.push(Operator::I32AtomicRmwAdd { memarg: ma(2) }); v.push(Operator::Drop); }
+            10 => { v.push(Operator::I32Const { value: 0 }); v.push(Operator::I64Const { value: 1 }); v.push(Operator::I64Const { value: 2 }); v.push(Operator::I64AtomicRmw16CmpxchgU { memarg: ma(1) }); v.push(Operator::Drop); }
             100 => { return vec![]; }
             5 => { v.push(Operator::I32Const { value: 0 }); v.push(Operator::V128Load { memarg: ma(4) }); v.push(Operator::Drop); }
             6 => { v.push(Operator::I32Const { value: 0 }); v.push(Operator::I32AtomicLoad { memarg: ma(2) }); v.push(Operator::Drop); }
@@ -266,7 +269,8 @@ fn decode(out: &[u8], elem_sites: &[usize], start_site: Option<usize>, init_get:
                                     Operator::Call { function_index } | Operator::ReturnCall { function_index } => Some(*function_index as u64),
                                     Operator::GlobalGet { global_index } => Some(*global_index as u64),
                                     Operator::I32Load { memarg } | Operator::I32Load8U { memarg } | Operator::I64Store { memarg } | Operator::I32Store8 { memarg }
-                                    | Operator::V128Load { memarg } | Operator::I32AtomicLoad { memarg } => Some(memarg.memory as u64),
+                                    | Operator::V128Load { memarg } | Operator::I32AtomicLoad { memarg } | Operator::I64AtomicLoad { memarg }
+                                    | Operator::I32AtomicRmwAdd { memarg } | Operator::I64AtomicRmw16CmpxchgU { memarg } => Some(memarg.memory as u64),
                                     Operator::MemorySize { mem } | Operator::MemoryGrow { mem } | Operator::MemoryFill { mem } => Some(*mem as u64),
                                     Operator::MemoryCopy { dst_mem, src_mem } => { d.sites.push((n + 1, *src_mem as u64)); Some(*dst_mem as u64) }
                                     Operator::I32Const { value } if (*value as u32 as u64) >= MARK => { break; }
@@ -409,7 +413,7 @@ fn gen_case(r: &mut Rng, prop: &str, seed: u64, idx: u64) -> Case {
                 for _ in 0..r.below(3) {
                     let s2 = pick_sp(r);
                     if let Some(id) = pick(r, &known[s2.code()], &deleted[s2.code()]) {
-                        let fl = r.below(8);
+                        let fl = r.below(11);
                         if s2 == Sp::M && fl == 4 {
                             let src = pick(r, &known[2], &deleted[2]).unwrap_or(id);
                             body_sites.push(Site { k: Rk::Code, sp: s2, id, owner: Owner::None, flavour: 4, flavour2: src });
@@ -496,7 +500,7 @@ fn gen_case(r: &mut Rng, prop: &str, seed: u64, idx: u64) -> Case {
         for _ in 0..1 + r.below(6) {
             let sp = pick_sp(r);
             if let Some(id) = pick_any(r, &known[sp.code()], &deleted[sp.code()]) {
-                let fl = if sp == Sp::M && prop == "C08" && r.chance(1, 3) { 4 } else { r.below(8) };
+                let fl = if sp == Sp::M && prop == "C08" && r.chance(1, 3) { 4 } else { r.below(11) };
                 if sp == Sp::M && fl == 4 {
                     let src = pick_any(r, &known[2], &deleted[2]).unwrap_or(id);
                     sites.push(Site { k: Rk::Code, sp, id, owner: Owner::Func(probe_id), flavour: 4, flavour2: src });
